@@ -752,7 +752,7 @@ Lemma follows_b_not_value b rest rest' k : follows_b b rest rest' k -> is_value_
 Proof. intros H. destruct H; reflexivity. Qed.
 
 Definition BlockReads (t : item) (w : octs) (c minlit : nat) (akey : bool) (b : nat) : Prop :=
-  forall fuel rest rest' k, (length w < fuel)%nat -> follows_b b rest rest' k ->
+  forall fuel rest rest' k, (length w + 2 < fuel)%nat -> follows_b b rest rest' k ->
   exists c', block_node fuel (w ++ rest) c minlit akey = Some (t, rest', c') /\ (rest' <> [] -> c' = k).
 
 (** ** scalars *)
@@ -1012,7 +1012,7 @@ Lemma seq_child_reads d n x : (d <= 2)%nat -> P_block x -> tree_ok x -> x <> Nul
   forall k o, (k = 0%nat -> (col o <= n)%nat) ->
   exists E, seq_child d n k x o = put o ((if Nat.eqb k 0 then repeat SP (n - col o) else 10 :: repeat SP n) ++ 45 :: E) /\
     (forall t, starts_blank_or_end (E ++ t) = true) /\
-    forall f rest R2 K2, (length E < f)%nat -> follows_b (S n) rest R2 K2 ->
+    forall f rest R2 K2, (length E + 1 < f)%nat -> follows_b (S n) rest R2 K2 ->
       exists c2, seq_elem f (E ++ rest) n n = Some (prune x, R2, c2) /\ (R2 <> [] -> c2 = K2).
 Proof.
   intros D PX TX NX k o CK. unfold seq_child. replace (Nat.leb 3 d) with false by (symmetry; apply Nat.leb_gt; lia).
@@ -1035,7 +1035,7 @@ Proof.
     + (* block map right after the dash *)
       assert (p = 1%nat) as -> by lia. split; [intros t; reflexivity|]. intros f rest R2 K2 L FO. cbn [app]. rewrite <- app_assoc.
       rewrite (seq_elem_inline f 0 w rest n n NB).
-      rewrite !app_length in L. cbn [length] in L.
+      rewrite !app_length in L. cbn [length repeat] in L.
       apply (BR (S n + 1)%nat true); [intros _; split; [lia|reflexivity]|lia|exact FO].
   - assert (ck = CInline) as Q by (apply not_bgroup_kind; exact NBG). clearbody ck. subst ck. cbn [glue]. split; [intros t; reflexivity|].
     intros f rest R2 K2 L FO.
@@ -1103,7 +1103,7 @@ Lemma block_seq_all d n b l : (d <= 2)%nat -> (b <= n)%nat -> Forall P_block l -
   (seq_loop (seq_child d n) l 0%nat o = (o, 0%nat) /\ pruned_list l = []) \/
   (exists E k', seq_loop (seq_child d n) l 0%nat o = (put o (repeat SP (n - col o) ++ 45 :: E), k') /\ (1 <= k')%nat /\
      (forall t, starts_blank_or_end (E ++ t) = true) /\
-     forall f rest rest' kf, (length E < f)%nat -> follows_b b rest rest' kf ->
+     forall f rest rest' kf, (length E + 1 < f)%nat -> follows_b b rest rest' kf ->
        exists c', block_seq (S f) (45 :: E ++ rest) n n [] = Some (Lst (pruned_list l), rest', c') /\ (rest' <> [] -> c' = kf)).
 Proof.
   intros D BN. induction l as [|x0 r IH]; intros FP FT o CO; [left; split; reflexivity|].
@@ -1421,4 +1421,201 @@ Proof.
     destruct (BR (S n + S q)%nat true) with (fuel := f) (rest := rest) (rest' := R2) (k := K2) as (c2 & E2 & CK2);
       [intros BG; rewrite (Q0 BG); split; [lia|reflexivity]|lia|exact FO|].
     rewrite E2. eauto.
+Qed.
+
+Lemma block_map_after_stop f key v acc b n rest rest' kf c2 :
+  (b <= n)%nat -> follows_b b rest rest' kf -> (rest' <> [] -> c2 = kf) ->
+  exists c', block_map_after f key v acc rest' c2 n = Some (build_map (rev acc ++ [(key, v)]), rest', c') /\ (rest' <> [] -> c' = kf).
+Proof.
+  intros BN FO CK. destruct FO as [c1|k c0 r K OS]; cbn [block_map_after rev].
+  - eauto.
+  - specialize (CK ltac:(discriminate)). subst c2.
+    replace (Nat.ltb k n) with true by (symmetry; apply Nat.ltb_lt; lia). eauto.
+Qed.
+
+(** the entries of a block map after the first one *)
+Lemma block_map_rest d n b m : (d <= 2)%nat -> (b <= n)%nat -> Forall (fun kv => P_block (snd kv)) m -> Forall entry_ok m ->
+  forall k o, (1 <= k)%nat ->
+  exists W k', map_loop (map_child d n) m k o = (put o W, k') /\ (1 <= k')%nat /\
+    forall rest rest' kf, follows_b b rest rest' kf ->
+      exists R2 K2, follows_b (S n) (W ++ rest) R2 K2 /\
+        forall f key v acc c2, (length W < f)%nat -> (R2 <> [] -> c2 = K2) ->
+          exists c', block_map_after f key v acc R2 c2 n = Some (build_map (rev acc ++ (key, v) :: pruned_map m), rest', c') /\ (rest' <> [] -> c' = kf).
+Proof.
+  intros D BN. induction m as [|[key0 x0] r IH]; intros FP FT k o K.
+  - exists [], k. cbn [map_loop]. repeat split; auto. intros rest rest' kf FO. exists rest', kf. cbn [app]. split.
+    + eapply follows_b_weaken; [|exact FO]. lia.
+    + intros f key v acc c2 _ CK. cbn [pruned_map filter map]. eapply block_map_after_stop; eauto.
+  - inversion FP as [|? ? P0 FP']; subst. inversion FT as [|? ? T0 FT']; subst. cbn [map_loop snd] in *.
+    destruct (is_nullb x0) eqn:NB.
+    + destruct (IH FP' FT' k o K) as (W & k' & E & K' & R). exists W, k'. repeat split; auto.
+      intros rest rest' kf FO. destruct (R rest rest' kf FO) as (R2 & K2 & F2 & RD). exists R2, K2. split; [exact F2|].
+      intros f key v acc c2 L CK. destruct (RD f key v acc c2 L CK) as (c' & E' & CK'). exists c'. rewrite E'.
+      unfold pruned_map. cbn [filter snd]. rewrite NB. auto.
+    + destruct (map_child_reads d n key0 x0 D P0 T0 (is_nullb_false _ NB) k o) as (E0 & EM & OH & RD0); [lia|].
+      unfold bsep in EM. replace (Nat.eqb k 0) with false in EM by (symmetry; apply Nat.eqb_neq; lia). rewrite EM.
+      destruct (IH FP' FT' (S k) (put o ((10 :: repeat SP n) ++ E0))) as (W & k' & EL & K' & R); [lia|].
+      exists (((10 :: repeat SP n) ++ E0) ++ W), k'. rewrite EL, put_put. repeat split; auto.
+      intros rest rest' kf FO. destruct (R rest rest' kf FO) as (R2 & K2 & F2 & RD).
+      destruct E0 as [|y E0']; [contradiction|]. cbn [ok_head] in OH.
+      exists (y :: E0' ++ W ++ rest), n. split.
+      * replace ((((10 :: repeat SP n) ++ y :: E0') ++ W) ++ rest) with (10 :: repeat SP n ++ y :: E0' ++ W ++ rest)
+          by (cbn [app]; repeat (rewrite <- app_assoc; cbn [app]); reflexivity).
+        constructor; [lia|exact OH].
+      * intros f key v acc c2 L CK. specialize (CK ltac:(discriminate)). subst c2. cbn [block_map_after].
+        rewrite Nat.ltb_irrefl, Nat.eqb_refl.
+        rewrite ?app_length in L; cbn [length app] in L; rewrite ?app_length in L; cbn [length app] in L; rewrite ?app_length, ?repeat_length in L.
+        destruct f as [|f]; [lia|]. rewrite block_map_S.
+        change (y :: E0' ++ W ++ rest) with ((y :: E0') ++ (W ++ rest)).
+        destruct (RD0 f (W ++ rest) R2 K2) as (c2 & E2 & CK2); [cbn [length]; lia|exact F2|]. rewrite E2.
+        destruct (RD f key0 (prune x0) ((key, v) :: acc) c2) as (c' & E' & CK'); [lia|exact CK2|]. exists c'. rewrite E'.
+        unfold pruned_map. cbn [filter rev snd fst]. rewrite NB. cbn [negb map fst snd]. rewrite <- app_assoc. auto.
+Qed.
+
+(** a whole block map, from its first key *)
+Lemma block_map_all d n b m : (d <= 2)%nat -> (b <= n)%nat -> Forall (fun kv => P_block (snd kv)) m -> Forall entry_ok m ->
+  forall o, (col o <= n)%nat ->
+  (map_loop (map_child d n) m 0%nat o = (o, 0%nat) /\ pruned_map m = []) \/
+  (exists E k', map_loop (map_child d n) m 0%nat o = (put o (repeat SP (n - col o) ++ E), k') /\ (1 <= k')%nat /\ ok_head E /\
+     forall f rest rest' kf, (length E < f)%nat -> follows_b b rest rest' kf ->
+       exists c', block_map (S f) (E ++ rest) n n [] = Some (build_map (pruned_map m), rest', c') /\ (rest' <> [] -> c' = kf)).
+Proof.
+  intros D BN. induction m as [|[key0 x0] r IH]; intros FP FT o CO; [left; split; reflexivity|].
+  inversion FP as [|? ? P0 FP']; subst. inversion FT as [|? ? T0 FT']; subst. cbn [map_loop snd] in *.
+  destruct (is_nullb x0) eqn:NB.
+  - destruct (IH FP' FT' o CO) as [[E Q]|(E & k' & EL & K & OH & R)].
+    + left. split; [exact E|]. unfold pruned_map in *. cbn [filter snd]. now rewrite NB.
+    + right. exists E, k'. repeat split; auto. intros f rest rest' kf L FO. destruct (R f rest rest' kf L FO) as (c' & E' & CK).
+      exists c'. rewrite E'. unfold pruned_map. cbn [filter snd]. rewrite NB. auto.
+  - right. destruct (map_child_reads d n key0 x0 D P0 T0 (is_nullb_false _ NB) 0%nat o) as (E0 & EM & OH & RD0); [auto|].
+    unfold bsep in EM. cbn [Nat.eqb] in EM. rewrite EM.
+    destruct (block_map_rest d n b r D BN FP' FT' 1%nat (put o (repeat SP (n - col o) ++ E0))) as (W & k' & EL & K' & R); [lia|].
+    exists (E0 ++ W), k'. rewrite EL, put_put. split; [|split; [exact K'|split]].
+    + f_equal. repeat (rewrite <- app_assoc; cbn [app]). reflexivity.
+    + destruct E0; [contradiction|exact OH].
+    + intros f rest rest' kf L FO. destruct (R rest rest' kf FO) as (R2 & K2 & F2 & RD).
+      rewrite app_length in L. rewrite block_map_S. rewrite <- app_assoc.
+      destruct (RD0 f (W ++ rest) R2 K2) as (c2 & E2 & CK2); [lia|exact F2|]. rewrite E2.
+      destruct (RD f key0 (prune x0) [] c2) as (c' & E' & CK'); [lia|exact CK2|]. exists c'. rewrite E'.
+      unfold pruned_map. cbn [filter rev app snd]. rewrite NB. auto.
+Qed.
+
+Lemma longkey_inv l : is_longkey_mark l = true -> exists r, l = 63 :: 32 :: r.
+Proof.
+  destruct l as [|x l]; [discriminate|].
+  destruct (N.eqb_spec x 63) as [->|N]; [|intros H; rewrite is_longkey_mark_other in H by exact N; discriminate].
+  destruct l as [|y l]; [discriminate|]. destruct (N.eqb_spec y 32) as [->|N]; [eauto|]. intros H. exfalso.
+  destruct y as [|p]; [discriminate H|]. repeat (destruct p as [p|p|]; try discriminate H). congruence.
+Qed.
+
+(** [block_node] hands a node that starts with a map entry to [block_map] *)
+Lemma block_node_map f f' l c m minlit e :
+  map_entry f' l c m = Some e -> block_node (S f) l c minlit true = block_map f l c c [].
+Proof.
+  unfold map_entry. intros H. destruct (is_longkey_mark l) eqn:LM.
+  - destruct (longkey_inv _ LM) as (r & ->). clear H.
+    cbn [block_node]. change ((63 =? 91) || (63 =? 123)) with false. change (63 =? 124) with false.
+    cbn [is_seq_mark]. rewrite LM. reflexivity.
+  - destruct (key_scalar l c) as [[[k r1] c1]|] eqn:KS; [|discriminate H].
+    destruct (Nat.ltb 1024 (c1 - c)); [discriminate H|].
+    destruct (is_value_mark r1) eqn:VM; [|discriminate H].
+    destruct l as [|x l]; [discriminate KS|].
+    assert (x <> 91 /\ x <> 123 /\ x <> 124 /\ x <> 45) as (N1 & N2 & N3 & N4).
+    { repeat split; intros ->; cbn in KS; discriminate KS. }
+    cbn [block_node].
+    replace (x =? 91) with false by (symmetry; now apply N.eqb_neq).
+    replace (x =? 123) with false by (symmetry; now apply N.eqb_neq).
+    replace (x =? 124) with false by (symmetry; now apply N.eqb_neq). cbn [orb].
+    rewrite is_seq_mark_other by assumption. rewrite LM. cbn [andb]. rewrite KS, VM. reflexivity.
+Qed.
+
+Lemma block_map_some_entry f l c m acc r : block_map (S f) l c m acc = Some r -> exists e, map_entry f l c m = Some e.
+Proof. rewrite block_map_S. destruct (map_entry f l c m) as [e|]; [eauto|discriminate]. Qed.
+
+(** ** every non-null item in block context *)
+Theorem block_all t : P_block t.
+Proof.
+  induction t using item_ind'; intros d li gi prep o minlit b D TO NN ML BL BG CO.
+  - congruence.
+  - inversion TO; subst. exists 0%nat, (scalar_bytes false li (nums s)).
+    destruct (block_scalar_reads s li minlit 0%nat false b H0 ML BL) as [_ NB].
+    split; [|split; [intros []|split; [exact NB|]]].
+    + cbn [emit_node kindd repeat app]. now replace (Nat.leb 4 d) with false by (symmetry; apply Nat.leb_gt; lia).
+    + intros c akey _. now apply block_scalar_reads.
+  - destruct (Nat.leb 3 d) eqn:FL.
+    + (* flow style from depth 3 *)
+      apply Nat.leb_le in FL. destruct (flow_all (Lst l) d li gi prep o FL I TO NN) as (p & w & EM & FR).
+      exists p, w. cbn [kindd]. replace (Nat.leb 3 d) with true by (symmetry; apply Nat.leb_le; exact FL).
+      split; [exact EM|]. split; [cbn [is_bgroup]; lia|].
+      assert (match prune (Lst l) with Lst _ | Map _ => True | _ => False end) as G by (rewrite prune_lst; exact I).
+      split; [apply (flow_in_block _ _ 0%nat 0%nat true 0%nat FR G)|]. intros c akey _. apply (proj1 (flow_in_block _ _ c minlit akey b FR G)).
+    + apply Nat.leb_gt in FL. inversion TO as [| |? FT|]; subst. rewrite emit_node_lst, prune_lst.
+      cbn [kindd is_bgroup] in *. replace (Nat.leb 3 d) with false in * by (symmetry; apply Nat.leb_gt; lia). cbv zeta.
+      specialize (CO ltac:(lia)).
+      destruct (block_seq_all d gi b l ltac:(lia) BG H FT (prep CBSeq o) CO) as [[E Q]|(E & k' & EL & K & SB & R)]; rewrite ?E, ?EL.
+      * cbn [Nat.eqb]. rewrite indent_to_put, put_put, Q. exists (gi - col (prep CBSeq o))%nat, [91; 93].
+        split; [reflexivity|]. split; [lia|]. destruct (flow_in_block _ _ 0%nat 0%nat true 0%nat flow_empty_seq I) as [_ NB].
+        split; [exact NB|]. intros c akey _. apply (proj1 (flow_in_block _ _ c minlit akey b flow_empty_seq I)).
+      * replace (Nat.eqb k' 0) with false by (symmetry; apply Nat.eqb_neq; lia).
+        exists (gi - col (prep CBSeq o))%nat, (45 :: E). split; [reflexivity|]. split; [lia|]. split; [cbn; split; discriminate|].
+        intros c akey CA. destruct (CA ltac:(lia)) as [-> ->].
+        intros fuel rest rest' kf L FO. cbn [length] in L. destruct fuel as [|[|f]]; [lia|lia|].
+        cbn [app]. rewrite block_node_seq by apply SB. apply R; [lia|exact FO].
+  - destruct (Nat.leb 3 d) eqn:FL.
+    + apply Nat.leb_le in FL. destruct (flow_all (Map m) d li gi prep o FL I TO NN) as (p & w & EM & FR).
+      exists p, w. cbn [kindd]. replace (Nat.leb 3 d) with true by (symmetry; apply Nat.leb_le; exact FL).
+      split; [exact EM|]. split; [cbn [is_bgroup]; lia|].
+      assert (match prune (Map m) with Lst _ | Map _ => True | _ => False end) as G by (rewrite prune_map; exact I).
+      split; [apply (flow_in_block _ _ 0%nat 0%nat true 0%nat FR G)|]. intros c akey _. apply (proj1 (flow_in_block _ _ c minlit akey b FR G)).
+    + apply Nat.leb_gt in FL. inversion TO as [| | |? KS FT]; subst. rewrite emit_node_map, prune_map.
+      cbn [kindd is_bgroup] in *. replace (Nat.leb 3 d) with false in * by (symmetry; apply Nat.leb_gt; lia). cbv zeta.
+      specialize (CO ltac:(lia)). assert (Forall entry_ok m) as FE by exact FT.
+      destruct (block_map_all d gi b m ltac:(lia) BG H FE (prep CBMap o) CO) as [[E Q]|(E & k' & EL & K & OH & R)]; rewrite ?E, ?EL.
+      * cbn [Nat.eqb]. rewrite indent_to_put, put_put, Q. exists (gi - col (prep CBMap o))%nat, [123; 125].
+        split; [reflexivity|]. split; [lia|]. destruct (flow_in_block _ _ 0%nat 0%nat true 0%nat flow_empty_map I) as [_ NB].
+        split; [exact NB|]. intros c akey _. apply (proj1 (flow_in_block _ _ c minlit akey b flow_empty_map I)).
+      * replace (Nat.eqb k' 0) with false by (symmetry; apply Nat.eqb_neq; lia).
+        exists (gi - col (prep CBMap o))%nat, E. split; [reflexivity|]. split; [lia|].
+        split; [destruct E as [|y E']; [contradiction|]; destruct OH as (A & B' & _); cbn; auto|].
+        intros c akey CA. destruct (CA ltac:(lia)) as [-> ->].
+        intros fuel rest rest' kf L FO. destruct fuel as [|[|f]]; [lia|lia|].
+        destruct (R f rest rest' kf) as (c' & EB & CK); [lia|exact FO|].
+        destruct (block_map_some_entry _ _ _ _ _ _ EB) as (e & EE).
+        rewrite (block_node_map (S f) f _ gi gi minlit e EE). rewrite <- (build_map_incr _ (incr_pruned _ KS)). eauto.
+Qed.
+
+(* ------------------------------------------------------------------ *)
+(** * the whole document *)
+Lemma three_dots_inv w : three_dots w = true -> w = [46; 46; 46].
+Proof.
+  destruct w as [|a [|b' [|c [|d w]]]]; try discriminate. cbn. intros H.
+  apply andb_true_iff in H. destruct H as [H H3]. apply andb_true_iff in H. destruct H as [H1 H2].
+  apply N.eqb_eq in H1, H2, H3. now subst.
+Qed.
+
+Theorem tree_roundtrip : tree_roundtrip_full.
+Proof.
+  intros t WI SW. destruct t as [|s|l|m].
+  - reflexivity.
+  - now apply tree_roundtrip_scalar.
+  - pose proof (tree_ok_of _ WI SW) as TO.
+    destruct (block_all (Lst l) 0%nat 2%nat 0%nat prep_top [] 1%nat 0%nat) as (p & w & EM & CG & NB & BR);
+      [lia|exact TO|discriminate|lia|lia|lia|intros _; cbn; lia|].
+    cbn [kindd Nat.leb prep_top] in *. specialize (CG ltac:(cbn; lia)). cbn [col] in CG. assert (p = 0%nat) as -> by lia.
+    unfold emit_octs. rewrite EM. cbn [repeat app]. rewrite rev_put. cbn [rev app].
+    destruct (BR 0%nat true ltac:(auto) (2 * length w + 4)%nat [] [] 0%nat) as (c' & E & _); [lia|constructor|].
+    rewrite app_nil_r in E. unfold load_octs. destruct w as [|x w']; [contradiction|].
+    destruct (three_dots (x :: w')) eqn:TD.
+    + apply three_dots_inv in TD. rewrite TD in E. rewrite prune_lst in E. vm_compute in E. discriminate E.
+    + rewrite E. reflexivity.
+  - pose proof (tree_ok_of _ WI SW) as TO.
+    destruct (block_all (Map m) 0%nat 2%nat 0%nat prep_top [] 1%nat 0%nat) as (p & w & EM & CG & NB & BR);
+      [lia|exact TO|discriminate|lia|lia|lia|intros _; cbn; lia|].
+    cbn [kindd Nat.leb prep_top] in *. specialize (CG ltac:(cbn; lia)). cbn [col] in CG. assert (p = 0%nat) as -> by lia.
+    unfold emit_octs. rewrite EM. cbn [repeat app]. rewrite rev_put. cbn [rev app].
+    destruct (BR 0%nat true ltac:(auto) (2 * length w + 4)%nat [] [] 0%nat) as (c' & E & _); [lia|constructor|].
+    rewrite app_nil_r in E. unfold load_octs. destruct w as [|x w']; [contradiction|].
+    destruct (three_dots (x :: w')) eqn:TD.
+    + apply three_dots_inv in TD. rewrite TD in E. rewrite prune_map in E. vm_compute in E. discriminate E.
+    + rewrite E. reflexivity.
 Qed.
